@@ -47,6 +47,18 @@ func checkC07(w *World, r *Report) {
 			xferS = s
 		}
 	}
+	var xferTop ssa.Instruction
+	var xferArgs []ssa.Value
+	if xferS != nil {
+		xferTop, xferArgs = xferS.Instr, xferS.Args()
+	} else {
+		// the transfer behind a thin helper that is handed the addresses and the coins and hands the bank's error on
+		for _, e := range w.effectsBelow(split, func(x *Site) bool { return cg.Atom(x) == BankMove }, 2) {
+			if c, isC := e.Site.Instr.(*ssa.Call); isC && len(e.Chain) == 1 && errorKeptUnder(e.Site.Caller, c, errValues(e.Site.Caller, c)) {
+				xferS, xferTop, xferArgs = e.Site, e.Top(), e.RootArgs()
+			}
+		}
+	}
 	if unlockS == nil || createS == nil || xferS == nil || fromP == nil || toP == nil || amtP == nil {
 		r.Bad("C07.recipient", "split: unlock, create and transfer calls", w.Pos(split.Pos()), "the split operation no longer consists of unlock + create + transfer")
 		return
@@ -88,7 +100,13 @@ func checkC07(w *World, r *Report) {
 		r.Check(ok, "C07.recipient", fmt.Sprintf("recipient start = max(now, sender start): now %s start", orderNames[s]), w.Pos(createS.Instr.Pos()), "live value is the later of the two", "the recipient's start time is not max(now, sender start)")
 	}
 	// transfer
-	xa := xferS.Args()
+	xa := xferArgs
+	var xferCoins ssa.Value
+	for _, a := range xa {
+		if isCoinsType(a.Type()) && xferCoins == nil {
+			xferCoins = a
+		}
+	}
 	var addrs []ssa.Value
 	for _, a := range xa {
 		if typeString(a.Type()) == tAddr {
@@ -96,8 +114,8 @@ func checkC07(w *World, r *Report) {
 		}
 	}
 	r.Check(xferS.Method == "SendCoins" && len(addrs) == 2 && addrs[0] == ssa.Value(fromP) && addrs[1] == ssa.Value(toP), "C07.transfer", "transfer from sender to recipient", w.Pos(xferS.Instr.Pos()), "SendCoins(from, to, ...)", "the transfer is not from the sender to the recipient")
-	r.Check(coinsArg(xferS) == ssa.Value(amtP), "C07.transfer", "transfer carries the coins unlocked", w.Pos(xferS.Instr.Pos()), "the same Coins value", "the transferred coins differ from the unlocked amount")
-	r.Check(OnSuccessEdge(split, xferS.Instr, siteValue(unlockS)) && OnSuccessEdge(split, xferS.Instr, siteValue(createS)) && OnSuccessEdge(split, createS.Instr, siteValue(unlockS)),
+	r.Check(xferCoins == ssa.Value(amtP), "C07.transfer", "transfer carries the coins unlocked", w.Pos(xferS.Instr.Pos()), "the same Coins value", "the transferred coins differ from the unlocked amount")
+	r.Check(OnSuccessEdge(split, xferTop, siteValue(unlockS)) && OnSuccessEdge(split, xferTop, siteValue(createS)) && OnSuccessEdge(split, createS.Instr, siteValue(unlockS)),
 		"C07.transfer", "create after unlock succeeded, transfer after both", w.Pos(xferS.Instr.Pos()), "success-edge domination", "the steps of the split are not chained on success edges")
 
 	// ---------- C07.guard / writes ----------
